@@ -38,7 +38,7 @@ ASSUMPTIONS = [
     "attrs compared with array equality (netCDF returns 1-element arrays as scalars and lists as arrays)",
     "variable names are disjoint from dimension names; appended variables reuse the file's labels on shared dimensions",
 ]
-MANDATORY = ["json", "json:str-values", "json:0d", "nc:dataset-write", "nc:dataset-append", "nc:append-a", "nc:append-a+", "nc:open_nc-set", "nc:attr-write", "nc:NETCDF3",
+MANDATORY = ["nc:rewrite-dataset", "nc:rewrite-variable", "json", "json:str-values", "json:0d", "nc:dataset-write", "nc:dataset-append", "nc:append-a", "nc:append-a+", "nc:open_nc-set", "nc:attr-write", "nc:NETCDF3",
              "nc:str-labels", "nc:str-values", "nc:nan", "nc:int32", "nc:0d", "nc:attrs-3-levels", "nc:unsorted-labels", "nc:dims-differ"]
 
 
@@ -148,7 +148,7 @@ def nc_case(draw):
         else:
             steps.append({"k": "attr", "level": draw(st.sampled_from(["dataset", "variable", "axis"])), "which": draw(st.integers(0, 7)),
                           "name": draw(attr_names), "value": draw(nc_attr)})
-    return {"mode": "nc", "steps": steps}
+    return {"mode": "nc", "steps": steps, "rewrite": draw(st.sampled_from([None, None, "ds", "var"]))}
 
 
 def strategy(tier):
@@ -405,6 +405,26 @@ def run_nc(case):
                 cl.add("nc:attrs-3-levels")
             if levels >= 2 or "nc:str-values" in cl or "nc:str-labels" in cl:
                 nontrivial = True
+        if m is not None and case.get("rewrite"):
+            # second generation: what was read from the file is written to another file (a Dataset / DimArray like any other) and must read back equal again
+            sig = {"mode": "nc", "step": "rewrite"}
+            path2 = os.path.join(tmp, "g.nc")
+            r1 = lib(lambda: da.read_nc(path), what="read_nc(file) before re-writing", sig=sig)
+            lib(lambda: r1.write_nc(path2, format=m.fmt), what="read_nc(file).write_nc(other file, format=%s)" % m.fmt, sig=sig)
+            compare_file(path2, m, "file written from the Dataset read from the first file", sig)
+            cl.add("nc:rewrite-dataset")
+            if m.vars and case["rewrite"] == "var":
+                name = list(m.vars)[-1]
+                path3 = os.path.join(tmp, "h.nc")
+                v1 = lib(lambda: da.read_nc(path, name), what="read_nc(file, %r) before re-writing" % name, sig=sig)
+                if isinstance(v1, da.DimArray):
+                    lib(lambda: v1.write_nc(path3, name, mode="w", format=m.fmt), what="read_nc(file, %r).write_nc(other file)" % name, sig=sig)
+                    back = lib(lambda: da.read_nc(path3, name), what="read back the re-written variable %r" % name, sig=sig)
+                    compare_var(back, m.vars[name], "variable %r written from the DimArray read from the first file" % name, sig, m.fmt)
+                    if back.ndim:
+                        for d in back.dims:
+                            attrs_match(back.axes[d].attrs, m.axattrs.get(d, {}), "axis attrs of %s after re-writing variable %r" % (d, name), sig)
+                    cl.add("nc:rewrite-variable")
     finally:
         shutil.rmtree(tmp, ignore_errors=True)
     return {"classes": sorted(cl), "nontrivial": nontrivial}
